@@ -290,3 +290,68 @@ func returnsCreateErr(r *Roles, fn *ssa.Function) ssa.CallInstruction {
 	})
 	return hit
 }
+
+// deepAccessPath is accessPath seen through local copies: a local variable that is assigned in one place (the copy of
+// a range element, of a parameter, of a composite literal's element) stands for what was assigned to it.
+func deepAccessPath(v ssa.Value) (ssa.Value, []string) {
+	root, pth := accessPath(an.Strip(v))
+	for i := 0; i < 6; i++ {
+		al, ok := root.(*ssa.Alloc)
+		if !ok {
+			break
+		}
+		sv := an.SingleStore(al)
+		if sv == nil {
+			break
+		}
+		r2, p2 := accessPath(an.Strip(sv))
+		if r2 == nil || r2 == root {
+			break
+		}
+		root, pth = r2, append(append([]string{}, p2...), pth...)
+	}
+	return root, pth
+}
+
+// fieldBase peels field selections off a value: for `res.index` it returns res (the struct value the field is read
+// from), also when the struct is kept in a local variable assigned once. Other values are returned unchanged.
+func fieldBase(v ssa.Value) ssa.Value {
+	for i := 0; i < 4; i++ {
+		switch x := an.Strip(v).(type) {
+		case *ssa.Field:
+			v = x.X
+			continue
+		case *ssa.UnOp:
+			if fa, ok := x.X.(*ssa.FieldAddr); ok && x.Op == token.MUL {
+				if whole := an.SingleStore(fa.X); whole != nil && !fieldWritten(fa.X, fa.Field) {
+					v = whole
+					continue
+				}
+			}
+		}
+		break
+	}
+	return v
+}
+
+// returnsIndex: the function hands back an index: one of its results is types.Index, or a struct of its own
+// package with a field of that type (a result record).
+func returnsIndex(f *ssa.Function) bool {
+	res := f.Signature.Results()
+	for i := 0; i < res.Len(); i++ {
+		t := res.At(i).Type()
+		if n := an.NamedOf(t); n != nil && n.Obj().Name() == "Index" {
+			return true
+		}
+		if n := an.NamedOf(t); n != nil && n.Obj().Pkg() != nil && f.Pkg != nil && n.Obj().Pkg() == f.Pkg.Pkg {
+			if st, ok := n.Underlying().(*types.Struct); ok {
+				for k := 0; k < st.NumFields(); k++ {
+					if fn := an.NamedOf(st.Field(k).Type()); fn != nil && fn.Obj().Name() == "Index" {
+						return true
+					}
+				}
+			}
+		}
+	}
+	return false
+}
